@@ -28,6 +28,51 @@ KIND = {"q": "qDOF", "q_dot": "qDOF", "u": "uDOF", "u_dot": "uDOF", "la_c": "la_
         "P_gamma": "la_gammaDOF", "la_N": "la_NDOF", "P_N": "la_NDOF", "la_F": "la_FDOF", "P_F": "la_FDOF"}
 
 
+def export_element_of_xi(ctx, rule="C29.R13"):
+    """The rod kernels are evaluated with the element's coordinates `q[self.elDOF[el]]` and the basis functions at xi; both only fit together
+    if el is the element whose knot span contains xi.  In the export routines every call of a rod method that takes both `xi` and `el`
+    must pass an `el` that comes from `self.element_number(<the same xi>)` (an adjustment `el -= 1` at a span boundary keeps the provenance)."""
+    rep = ctx.rep
+    rel = "cardillo/rods/_base_export.py"
+    mod = ctx.repo.modules.get(rel)
+    if mod is None:
+        rep.ok(rule, rel, "module not found (no verdict)", verdict="unknown", trivial=True)
+        return
+    n = 0
+    for cls in [c for c in ast.walk(mod.tree) if isinstance(c, ast.ClassDef)]:
+        meths = {f.name: [a.arg for a in f.args.args] for f in cls.body if isinstance(f, ast.FunctionDef)}
+        for fn in [f for f in cls.body if isinstance(f, ast.FunctionDef)]:
+            binds = {}
+            for w in ast.walk(fn):
+                if isinstance(w, ast.Assign) and len(w.targets) == 1 and isinstance(w.targets[0], ast.Name):
+                    binds.setdefault(w.targets[0].id, []).append(w.value)
+            for c in [w for w in ast.walk(fn) if isinstance(w, ast.Call) and isinstance(w.func, ast.Attribute) and dotted(w.func.value) == "self" and w.func.attr in meths]:
+                ps = meths[c.func.attr][1:]
+                if "xi" not in ps or "el" not in ps:
+                    continue
+                def arg(name):
+                    i = ps.index(name)
+                    if i < len(c.args):
+                        return c.args[i]
+                    return next((k.value for k in c.keywords if k.arg == name), None)
+                a_el, a_xi = arg("el"), arg("xi")
+                if a_el is None or a_xi is None or (isinstance(a_el, ast.Constant) and a_el.value is None):
+                    continue
+                n += 1
+                C = f"{rel}:{cls.name}.{fn.name}"
+                srcs = binds.get(a_el.id, []) if isinstance(a_el, ast.Name) else [a_el]
+                ok_ = any(isinstance(x, ast.Call) and (dotted(x.func) or "").split(".")[-1] == "element_number" and x.args and norm_src(x.args[0]) == norm_src(a_xi)
+                          for v in srcs for x in ast.walk(v))
+                if ok_:
+                    rep.ok(rule, C, f"`{norm_src(c)[:60]}`: el comes from element_number({norm_src(a_xi)})")
+                else:
+                    rep.bad(rule, C, c, f"`{norm_src(c)[:70]}` evaluates at xi = `{norm_src(a_xi)}` in element `{norm_src(a_el)}` = {[norm_src(v)[:30] for v in srcs] or '?'}, which is not "
+                            "`self.element_number(xi)`: with ncells != nelement the kernel gets another element's coordinates together with basis functions at xi, and the written vectors are "
+                            "not the rod's geometry at that point", f"{rel}:{c.lineno}")
+    if n < 1:
+        rep.ok(rule, rel, "no call with both xi and el found (no verdict)", verdict="unknown", trivial=True)
+
+
 def merge_is_concatenation(ctx, rule="C29.R11"):
     """export() methods return their data either as lists of rows or as ndarrays (Sphere2Plane's P_F, the rods' RationalWeights, ...).  The
     helper that merges the members of a list export has to append rows in both cases.  `a += b` / `a + b` appends for lists and ADDS
@@ -80,6 +125,11 @@ def merge_is_concatenation(ctx, rule="C29.R11"):
 
 def run(ctx):
     rep = ctx.rep
+    rep.rule("C29.R13", "rod export: a quantity evaluated at (xi, el) gets the element that CONTAINS xi (self.element_number(xi)), not the index of the vtk cell - cells and elements differ as soon as ncells != nelement", 1)
+    export_element_of_xi(ctx)
+    rep.rule("C29.R12", "export routines do not serve remembered geometry across frames unless the memory is keyed by everything the geometry depends on - the frame's TIME included (a prescribed-motion Frame has no coordinates: its pose depends on sol_i.t alone)", 0)
+    from . import c26 as _c26
+    _c26.attribute_memos(ctx, "C29.R12", lambda rel: rel.startswith("cardillo/") and not rel.startswith("cardillo/solver/"))
     rep.rule("C29.R11", "list exports merge the members' point / cell data by ROW CONCATENATION in both representations (list: extend, array: vstack / concatenate); `+` / `+=` on an entry is concatenation for lists only and needs an isinstance(list) guard", 1)
     merge_is_concatenation(ctx)
     rep.rule("C29.R1", "one DataSet and one file per frame from the same file_i; collection written after the loop", 5)
@@ -811,4 +861,18 @@ MUTANTS += [
 ]
 NEUTRAL += [
     dict(id="c29-n-r11", canary=True, what="Export.__add_key rewritten over items() with the same list / array distinction", file='cardillo/visualization/vtk_export.py', old='    def __add_key(self, data_read, data_write):\n        for key in data_read.keys():\n            if not key in data_write.keys():\n                data_write[key] = data_read[key]\n            else:\n                if isinstance(data_read[key], list):\n                    data_write[key].extend(data_read[key])\n                else:\n                    data_write[key] = np.vstack((data_write[key], data_read[key]))\n\n', new='    def __add_key(self, data_read, data_write):\n        for key, value in data_read.items():\n            if key not in data_write:\n                data_write[key] = value\n            elif isinstance(value, list):\n                data_write[key].extend(value)\n            else:\n                data_write[key] = np.vstack((data_write[key], value))\n\n'),
+]
+
+MUTANTS += [
+    dict(id="c29-r12-seed", canary=True, what="[seeded by sub-agent] Meshed.export buffers the world-space vertices and recomputes them only when q changes (a meshed Frame has nq = 0: frozen at the first frame)", file='cardillo/discrete/meshed.py',
+         old='                r_OC = self.r_OP(\n                    sol_i.t, sol_i.q[self.qDOF]\n                )  # TODO: Idea: slicing could be done on global level in Export class. Moreover, solution class should be able to return the slice, e.g., sol_i.get_q_of_body(name).\n                A_IB = self.A_IB(sol_i.t, sol_i.q[self.qDOF])\n                points = (r_OC[:, None] + A_IB @ self.B_r_CQi_T).T\n\n                cells = [(VTK_TRIANGLE, face) for face in self.B_visual_mesh.faces]\n\n', new='                q = sol_i.q[self.qDOF]\n                key = q\n                if getattr(self, "_export_key", None) is None or not np.array_equal(key, self._export_key):\n                    r_OC = self.r_OP(sol_i.t, q)\n                    A_IB = self.A_IB(sol_i.t, q)\n                    self._export_points = (r_OC[:, None] + A_IB @ self.B_r_CQi_T).T\n                    self._export_key = key\n                points = self._export_points\n\n                cells = [(VTK_TRIANGLE, face) for face in self.B_visual_mesh.faces]\n\n', expect="C29.R12"),
+]
+NEUTRAL += [
+    dict(id="c29-n-r12", canary=True, what="Meshed.export buffers the vertices keyed by (t, q)", file='cardillo/discrete/meshed.py',
+         old='                r_OC = self.r_OP(\n                    sol_i.t, sol_i.q[self.qDOF]\n                )  # TODO: Idea: slicing could be done on global level in Export class. Moreover, solution class should be able to return the slice, e.g., sol_i.get_q_of_body(name).\n                A_IB = self.A_IB(sol_i.t, sol_i.q[self.qDOF])\n                points = (r_OC[:, None] + A_IB @ self.B_r_CQi_T).T\n\n                cells = [(VTK_TRIANGLE, face) for face in self.B_visual_mesh.faces]\n\n', new='                q = sol_i.q[self.qDOF]\n                key = np.concatenate(([sol_i.t], q))\n                if getattr(self, "_export_key", None) is None or not np.array_equal(key, self._export_key):\n                    r_OC = self.r_OP(sol_i.t, q)\n                    A_IB = self.A_IB(sol_i.t, q)\n                    self._export_points = (r_OC[:, None] + A_IB @ self.B_r_CQi_T).T\n                    self._export_key = key\n                points = self._export_points\n\n                cells = [(VTK_TRIANGLE, face) for face in self.B_visual_mesh.faces]\n\n'),
+]
+
+MUTANTS += [
+    dict(id="c29-r13-f56", canary=True, what="fix F56 reverted: the surface normals of the volume export are evaluated in element `i` = index of the vtk cell", file='cardillo/rods/_base_export.py',
+         old='                        xi = (i + layer / p_zeta) / ncells\n                        # the vtk cells need not coincide with the elements; the\n                        # last layer of a cell belongs to the element ending there\n                        el = self.element_number(xi)\n                        if (\n                            layer == p_zeta\n                            and el > 0\n                            and np.isclose(self.element_interval(el)[0], xi)\n                        ):\n                            el -= 1\n', new='                        el = i\n                        xi = (i + layer / p_zeta) / ncells\n', expect="C29.R13"),
 ]
